@@ -279,6 +279,8 @@ EDGE_PROB = [
     [(0, 0.3), (1, 0.6), (2, 0.1)], [(0, 0.0), (1, 0.999), (2, 0.001)], [(0, 0.25), (1, 0.0), (2, 0.0), (3, 0.75)],
     # the same kind of table with the keys written in another order (a YAML mapping has no order)
     [(1, 0.0), (0, 0.5), (2, 0.5)], [(2, 1.0), (1, 0.0), (0, 0.0)], [(1, 1.0), (0, 0.0)],
+    # tables that sum to 1 only within the tolerance of the loader's validator (1e-6)
+    [(0, 0.3), (1, 0.6), (2, 0.0999995)], [(0, 0.5), (1, 0.5000005)],
 ]
 
 
